@@ -20,6 +20,7 @@ func init() {
 var wPosition = map[string]string{"insert": "node", "delete": "node", "getBlockProof": "node", "markToCollect": "node"}
 
 func runC09(r *engine.Run) {
+	r.Rule("DOM-save", "see C11: every arm of commit puts its node into the batch before each success return (a short node that is not saved because 'the branch above carries it' is missing when it is the root: the committed trie cannot be reopened from its root hash)")
 	r.Rule("EXH-W", "in insert, delete, getBlockProof and markToCollect every type test of the position node (the walk's current, possibly collapsed node) for a kind other than *hashNode is preceded on every path by a *hashNode test of the position (dominating it), or leads on its failure edge to one before the function exits: a collapsed reference is resolved before it is interpreted as 'something else / empty'")
 	r.Rule("DEP-weight", "in the branch arm of insert and delete the value stored to routingNode.weight and the returned weight change both depend on the change returned by the recursive call; in the shared-prefix arm the returned change does")
 	r.Rule("DOM-dirty", "in insert and delete, a store to a hashed field (routingNode.weight/Children[i], shortNode.key/value, valueNode.value/weight) of an object is accompanied by a store dirty=true on the same object that dominates the store or every return reachable after it")
@@ -86,7 +87,9 @@ func runC09(r *engine.Run) {
 	freshKeyBuf(r, "FRESH-keybuf")
 	freshCopy(r, "FRESH-copy")
 	domReject(r, "DOM-reject")
+	rejectKind(r, "DOM-reject")
 	lockRootWrite(r, "LOCK-rootwrite")
+	domSave(r)
 }
 
 func wfn(r *engine.Run, rule, name string) *ssa.Function {
